@@ -220,9 +220,9 @@ Section Split4.
         * destruct (split_metrics_l size total (snd s)) as [[m kept] t1] eqn:E1.
           destruct (split_metrics_l_spec rc (fst s) _ Hle E1) as (A1 & B1 & C1).
           assert (t1 = size) by (unfold scope4_count in Hcut; lia). rewrite H in E. cbn beta iota in E.
-          rewrite split_scopes4_full in E. inversion E; subst d k t. simpl.
-          unfold items_scope4 at 1 3. simpl. rewrite app_nil_r, app_assoc, A1.
-          unfold scope4_count at 1. simpl. repeat split; try lia.
+          rewrite split_scopes4_full in E. inversion E; subst d k t. cbn [flat_map map list_sum].
+          unfold items_scope4, scope4_count in *. simpl.
+          rewrite <- A1, app_nil_r, <- app_assoc. repeat split; lia.
   Qed.
 
   Lemma split_res4_full size (rs : list (res4 I)) : split_res4 size size rs = ([], rs, size).
